@@ -1322,18 +1322,18 @@ func (s *Set) IsSubset(other Iterator) (bool, error) {
 }
 
 func (s *Set) Intersection(other Iterator) (Value, error) {
-	intersect := new(Set)
+	// The result preserves the element order of s (the left operand).
+	otherSet := new(Set)
 	var x Value
 	for other.Next(&x) {
-		found, err := s.Has(x)
-		if err != nil {
+		if err := otherSet.Insert(x); err != nil {
 			return nil, err
 		}
-		if found {
-			err = intersect.Insert(x)
-			if err != nil {
-				return nil, err
-			}
+	}
+	intersect := new(Set)
+	for e := s.ht.head; e != nil; e = e.next {
+		if found, _ := otherSet.Has(e.key); found {
+			intersect.Insert(e.key) // can't fail
 		}
 	}
 	return intersect, nil
